@@ -63,7 +63,19 @@ MC_BIG = [   # the exhaustive string enumerations of the two-coordinate formats 
     ("F23", "Fwide", "strings", None), ("E97", "Edc", "strings", None), ("E97P", "Edc", "elems", None), ("E97", "Montc", "elems-modsign", MONT),
     ("E97P", "Montc", "elems-modsign", None),
 ]
-QUICK_BIG = [("PA31", "Pastau", "strings", None), ("F23", "Fwide", "strings", None)]
+# quick tier: one exhaustive configuration of every format family and every defect model (TLC start-up dominates)
+MC_QUICK = [
+    ("K61", "Sec1c", "strings", None), ("K61", "Sec1c", "elems", None), ("K61", "Sec1c", "machine", None),
+    ("P61", "Sec1c", "elems", P61_DEFECT), ("P61", "Sec1cStrict", "strings", None), ("P61", "Sec1cStrict", "elems", None),
+    ("PA31", "Pastac", "strings", None), ("PA31", "Pastac", "elems", None),
+    ("E61", "Edc", "strings", None), ("E61", "Edc", "elems", None), ("E61P", "Edc", "strings", None),
+    ("E61", "Montc", "elems", MONT), ("E61P", "Montc", "elems-modsign", None), ("E61", "Montu", "elems", MONT),
+    ("B19", "Blsc", "strings", None), ("B19", "Blsc", "elems", None), ("B19", "Blsu", "strings", {"S_RejectsBad", "S_CodeConforms"}),
+    ("B19", "BlsuStrict", "elems", None),
+    ("K61", "Affine", "strings", None), ("B19", "AffineX", "strings", {"S_Sound", "S_RejectsBad", "S_CodeConforms"}), ("B19", "AffineXStrict", "strings", None),
+    ("GT23", "Gt", "strings", {"S_Sound", "S_RejectsBad", "S_CodeConforms"}), ("GT23", "GtStrict", "strings", None),
+    ("F23", "Fbe", "strings", None), ("F23", "Fle", "strings", None), ("F29", "FbeTop", "strings", None), ("F23", "Fbered", "strings", None),
+]
 
 # device X: toy curves for the generic point code
 XCURVES = {"K61": ("weier", 61, 0, 7, 2, 25), "P61": ("weier", 61, 58, 3, 1, 1), "PA31": ("weier", 31, 0, 3, 1, 2),
@@ -72,6 +84,10 @@ XCURVES = {"K61": ("weier", 61, 0, 7, 2, 25), "P61": ("weier", 61, 58, 3, 1, 1),
 POINTS = ["k256", "p256", "pallas", "vesta", "ed25519", "ed25519-prime", "x25519", "x25519-prime", "bls-g1", "bls-g2"]
 FIELDS = ["k256-scalar", "k256-base", "p256-scalar", "p256-base", "ed25519-scalar", "ed25519-base", "pasta-fp", "pasta-fq",
           "bls-scalar", "bls-g1-base", "bls-gt"]
+# one driver process (and one token table) per job
+JOBS = {"k256": ["k256", "k256-scalar", "k256-base"], "p256": ["p256", "p256-scalar", "p256-base"],
+        "pasta": ["pallas", "vesta", "pasta-fp", "pasta-fq"], "ed25519": ["ed25519", "ed25519-prime", "ed25519-scalar", "ed25519-base"],
+        "x25519": ["x25519", "x25519-prime"], "bls-g1": ["bls-g1", "bls-scalar", "bls-g1-base"], "bls-g2": ["bls-g2"], "bls-gt": ["bls-gt"]}
 
 
 def mc_cfg(c, f, fam):
@@ -190,9 +206,7 @@ def run(chk):
     tasks = []
 
     # ---------------- (G) the design model
-    mcs = list(MC_SMALL) + (QUICK_BIG if quick else MC_BIG)
-    if quick:   # the quick tier keeps one configuration of every format and every defect model
-        mcs = [m for m in mcs if m[2] != "machine" or m[1] in ("Sec1c", "Blsu", "Gt", "Montc", "Edc")]
+    mcs = list(MC_QUICK) if quick else list(MC_SMALL) + MC_BIG
     if not want("mc"):
         mcs = []
     cfgdir = vlib.scratch(chk.prop, "cfg")
@@ -251,32 +265,33 @@ def run(chk):
     win_fields = 128 if quick else 4096
     nrand = 12 if quick else 96
 
-    def prod_task(name):
+    def prod_task(job, names):
         def fn():
-            rd = vlib.scratch(chk.prop, "drv-" + name)
+            rd = vlib.scratch(chk.prop, "drv-" + job)
             out = os.path.join(rd, "trace.ndjson")
-            win = win_fields if name in FIELDS else (win_slow if name == "bls-g2" else win_points)
-            vlib.run_driver(binary, ["-mode", "prod", "-only", name, "-win", str(win), "-nrand", str(nrand), "-seed", str(seed), "-out", out], timeout=3000)
+            win = win_slow if job == "bls-g2" else win_points
+            vlib.run_driver(binary, ["-mode", "prod", "-only", ",".join(names), "-win", str(win), "-fwin", str(win_fields), "-nrand", str(nrand),
+                                     "-seed", str(seed), "-out", out], timeout=3000)
             rows = vlib.read_ndjson(out)
-            if len(rows) < 10:
-                raise vlib.MachineryError("driver job %s produced %d lines" % (name, len(rows)))
-            per = {}
+            if len(rows) < 10 or len([r for r in rows if r["a"] == "curve"]) != len(names):
+                raise vlib.MachineryError("driver job %s produced %d lines" % (job, len(rows)))
             for r in rows:
                 stats["by_action"][r["a"]] = stats["by_action"].get(r["a"], 0) + 1
                 if r["a"] in ("rt", "dec"):
+                    per = stats["by_curve"].setdefault(r["curve"], {})
                     k = "%s/%s" % (r["a"], r.get("api"))
                     per[k] = per.get(k, 0) + 1
                     stats["accepted" if r.get("acc") else "rejected"] += 1
-            stats["by_curve"][name] = per
-            for r in (rows[2], rows[len(rows) // 2], rows[-2]):
-                chk.sample({"job": name, "event": {k: v for k, v in r.items() if k not in ("elems", "encs")}}, cap=10)
-            n = validate_all(chk, "trace-" + name, rows)
+            for r in (rows[3], rows[len(rows) // 2], rows[-2]):
+                chk.sample({"job": job, "event": {k: v for k, v in r.items() if k not in ("elems", "encs")}}, cap=10)
+            n = validate_all(chk, "trace-" + job, rows)
             stats["lines"] += n
             return n
         return fn
-    for name in POINTS + FIELDS:
-        if sel is None or "prod" in sel or name in sel:
-            tasks.append(("prod:" + name, prod_task(name)))
+    for job, names in JOBS.items():
+        names = [n for n in names if sel is None or "prod" in sel or n in sel or job in sel]
+        if names:
+            tasks.append(("prod:" + job, prod_task(job, names)))
 
     res = vlib.parallel(tasks, max_workers=6)
 
